@@ -218,7 +218,7 @@ struct Explored {
     failure: Option<(String, String)>,
 }
 
-fn explore(c: Config, persist_dir: &Path) -> Explored {
+fn explore(c: Config, persist_dir: &Path, cap: u64) -> Explored {
     EXECS.store(0, Ordering::Relaxed);
     CONTENDED.store(0, Ordering::Relaxed);
     OUTCOMES.lock().unwrap().clear();
@@ -228,7 +228,7 @@ fn explore(c: Config, persist_dir: &Path) -> Explored {
     let t0 = Instant::now();
     let cfg = shuttle_config(persist_dir);
     let r = catch_unwind(AssertUnwindSafe(|| {
-        let scheduler = shuttle::scheduler::DfsScheduler::new(None, false);
+        let scheduler = shuttle::scheduler::DfsScheduler::new(Some(cap as usize), false);
         let runner = shuttle::Runner::new(scheduler, cfg);
         runner.run(move || body(c));
     }));
@@ -379,16 +379,26 @@ fn main() {
     let mut total_outcomes = 0u64;
     let mut violations = 0u64;
     let mut lines = vec![];
+    // Budget per configuration (the depth-first enumeration has no partial-order reduction, so a
+    // subject with more scheduling points can be out of reach). A configuration that hits it is
+    // reported as not exhaustive - what was explored is the first `cap` schedules in depth-first
+    // order - and never as a verdict of its own.
+    let cap: u64 = std::env::var("VERIF_SCHED_CAP").ok().and_then(|s| s.parse().ok()).unwrap_or(if tier == "quick" { 1_000_000 } else { 80_000_000 });
+    let mut caps_hit: Vec<String> = vec![];
     for c in &configs {
-        let e = explore(*c, &persist_dir);
-        eprintln!("[C20-sched] {:<44} schedules={:<9} contended={:<9} outcomes={:<4} {:.1}s{}", c.name(), e.schedules, e.contended, e.outcomes.len(), e.wall_s, if e.failure.is_some() { "  FAILED" } else { "" });
+        let e = explore(*c, &persist_dir, cap);
+        let capped = e.failure.is_none() && e.schedules >= cap;
+        if capped {
+            caps_hit.push(format!("{}: schedule budget {cap} hit; the first {cap} schedules in depth-first order were explored", c.name()));
+        }
+        eprintln!("[C20-sched] {:<44} schedules={:<9} contended={:<9} outcomes={:<4} {:.1}s{}", c.name(), e.schedules, e.contended, e.outcomes.len(), e.wall_s, if e.failure.is_some() { "  FAILED" } else if capped { "  CAPPED" } else { "" });
         total_schedules += e.schedules;
         total_outcomes += e.outcomes.len() as u64;
         let samples: Vec<Value> = e.outcomes.iter().take(4).map(|(o, n)| json!({"outcome": outcome_text(o), "schedules": n})).collect();
         conf_json.push(json!({
             "name": c.name(), "threads": c.threads, "creations_per_thread": c.creations, "static_tags": c.statics, "get_rounds": c.gets,
             "schedules": e.schedules, "schedules_with_contention": e.contended, "distinct_outcomes": e.outcomes.len(),
-            "sample_outcomes": samples, "wall_s": (e.wall_s * 100.0).round() / 100.0, "exhaustive": e.failure.is_none(),
+            "sample_outcomes": samples, "wall_s": (e.wall_s * 100.0).round() / 100.0, "exhaustive": e.failure.is_none() && !capped,
         }));
         if let Some((msg, schedule)) = e.failure {
             violations += 1;
@@ -411,7 +421,7 @@ fn main() {
     let wall = t0.elapsed().as_secs_f64();
     let ev = json!({
         "property_id": "C20", "engine": "shuttle 0.9.3 DfsScheduler (every schedule, no partial-order reduction) through the H1 sync seam (texlang built with --cfg texcraft_verif_sched)",
-        "tier": tier, "complete": true, "exhaustive": violations == 0,
+        "tier": tier, "complete": true, "exhaustive": violations == 0 && caps_hit.is_empty(), "caps_hit": caps_hit, "schedule_budget_per_configuration": cap,
         "assertions": "per execution: all created tags pairwise distinct (incl. the tag behind the static tag), every get() returned the same value, no deadlock (shuttle), seam locks never acquired while held / released while free",
         "scheduling_points": "seam acquire / try_acquire / release (locks, once cells, and before and after every single atomic operation), thread spawn, thread join",
         "configurations": conf_json, "schedules_total": total_schedules, "distinct_outcomes_total": total_outcomes,
